@@ -149,6 +149,8 @@ def gen_rfa_recipe(rnd, cls):
             ys.append(ys[-1])
         else:
             ys.append(float(rnd.randint(-6, 6)) / 2)
+    if rnd.random() < 0.2:
+        ys[-1] = ys[0]                     # equal first and last value
     n = rnd.choice([2, 2, 3, 4, 5, 6, 8, 9])
     if rnd.random() < 0.12:
         # evenly spaced abscissae with grid sizes at which accumulated rounding differs between ways of computing the grid
